@@ -10,8 +10,77 @@ ASSUMPTIONS = ['no executable correspondence: tie = structural facts extracted f
 HEADER = ''
 
 
+HEADER_GET = ('From Coq Require Import ZArith QArith Qcanon List Arith Bool.\nFrom SSJ Require Import Model.Chain Model.GET.\nImport ListNotations.\nOpen Scope nat_scope.\n')
+
+
 def correspondence(ctx):
-    return dict(evaluations=0, distinct_nontrivial=0, rule='none (abstract ring identities; see oracle)', samples=[], disagreements=[], stats={})
+    """generated models with leads/lags in which one unknown/target pair is wrapped as a SolvedBlock: Jacobian (no outer unknowns left) or general-equilibrium
+    Jacobian (outer unknowns left) of the NESTED model vs the executable model (Model/GET.v: the solved block's Jacobian is the inner horizon-T solve, dense)"""
+    from sequence_jacobian import combine
+    from props import C05
+    rng = ctx['rng']
+    n = 64 if ctx['tier'] == 'quick' else 400
+    specs = [C05.gen_get_model(rng) for _ in range(n)]
+    mod = M.write_linear_models(f'nest_{ctx["seed"]}_{ctx["tier"]}', [sp['blocks'] for sp in specs])
+    idx, nl = C05.idx, C05.nl
+    cases, exprs = [], []
+    for mi, sp in enumerate(specs):
+        objs = {b['name']: getattr(mod, f'm{mi}_{b["name"]}') for b in sp['blocks']}
+        j = rng.randint(0, len(sp['U']) - 1)
+        u, tg = sp['U'][j], sp['Tg'][j]
+        T = sp['T']
+        try:
+            inner = combine([objs[f'tgt{j}']], name=f'in{mi}').solved(unknowns={u: (-500.0, 500.0)}, targets=[tg], solver='brentq', name=f'solved{mi}')
+            others = [o for nm_, o in objs.items() if nm_ != f'tgt{j}']
+            rng.shuffle(others)
+            nm = combine(others + [inner], name=f'nest{mi}')
+            Uo, Tgo = [x for x in sp['U'] if x != u], [x for x in sp['Tg'] if x != tg]
+            ss = nm.steady_state({e: 1.0 for e in nm.inputs})
+        except Exception as ex:
+            continue              # the wrapped unknown feeds one of the solved block's own inputs (cycle): not a valid nesting
+        req = sp['U'] + [o for b in sp['blocks'] for o in b['outs'] if o not in sp['Tg']]
+        pos = [k for k, b in enumerate(nm.blocks) if b.name == inner.name][0]
+        pre = [C05.coq_sblk(b, ss, T) for b in nm.blocks[:pos]]
+        post = [C05.coq_sblk(b, ss, T) for b in nm.blocks[pos + 1:]]
+        iins = [i for i in inner.inputs if i.startswith('v')]
+        exprs.append(f'run_nested ({T})%Z {sp["N"]} [' + '; '.join(pre) + '] [' + '; '.join(post) + f'] [{C05.coq_sblk(objs[f"tgt{j}"], ss, T)}] {nl([u])} {nl([tg])} {nl(iins)} {nl([u])} '
+                     f'{nl(Uo)} {nl(Tgo)} {nl(sp["Z"])} {nl(req)}')
+        cases.append(dict(spec=sp, wrapped=[u, tg], listing=[b.name for b in nm.blocks], outer_unknowns=Uo, outputs=req, model=nm, ss=ss))
+    vals, logs = C.eval_in_coq('C11', HEADER_GET, exprs, chunk=max(1, len(exprs) // 16 + 1), tag='nest')
+    dis, stats = [], dict(singular=0, compared=0, ill_conditioned=0, with_outer_unknowns=0)
+    for c, vm in zip(cases, vals):
+        nm, ss, sp = c.pop('model'), c.pop('ss'), c['spec']
+        T, Uo = sp['T'], c['outer_unknowns']
+        if vm is None or vm == 'None':
+            stats['singular'] += 1
+            continue
+        body = vm[1] if isinstance(vm, tuple) and len(vm) == 2 and vm[0] == 'Some' else vm
+        Tgo = [x for x in sp['Tg'] if x != c['wrapped'][1]]
+        try:
+            if Uo and np.linalg.cond(nm.jacobian(ss, Uo, Tgo, T=T).pack(T)) > 1e6:
+                stats['ill_conditioned'] += 1
+                continue
+            G = nm.solve_jacobian(ss, Uo, Tgo, sp['Z'], outputs=c['outputs'], T=T) if Uo else nm.jacobian(ss, sp['Z'], c['outputs'], T=T)
+            stats['compared'] += 1
+            stats['with_outer_unknowns'] += bool(Uo)
+            bad = []
+            for zi, z in enumerate(sp['Z']):
+                for oi, o in enumerate(c['outputs']):
+                    want = C05.frac_mat(body[zi][oi])
+                    got = C05.dmat(G, o, z, T)
+                    if want.shape != got.shape or np.abs(got - want).max() > 1e-9 * max(1.0, np.abs(want).max()):
+                        bad.append(dict(output=o, shock=z, impl=got.tolist(), model=want.tolist()))
+        except Exception as ex:
+            bad = [f'raised {type(ex).__name__}: {str(ex)[:150]}']
+        if bad:
+            dis.append(dict(what='the Jacobian of a model containing a solved block differs from the executable nested model at horizon T', case=c, impl=bad[:2]))
+    for l in logs:
+        dis.append(dict(what='coq evaluation failed', log=l))
+    return dict(evaluations=len(cases), distinct_nontrivial=len({C.canon(c['spec']) for c in cases}),
+                rule='generated linear models with leads and lags (|shift| <= 2, 1-3 unknowns, horizons 3-6): one unknown/target pair wrapped as a SolvedBlock, listing shuffled; plain Jacobian (no outer '
+                     'unknown left) or general-equilibrium Jacobian (outer unknowns left) of the nested model for every exogenous input and non-target output vs the executable rational model '
+                     '(Model/GET.v: solved block = inner horizon-T solve as a dense block of the outer DAG), compared to 1e-9',
+                samples=[dict(spec=c['spec'], wrapped=c['wrapped']) for c in cases[:1]], disagreements=dis, stats=stats)
 
 
 def check(rng, override=None):
